@@ -1,19 +1,16 @@
 #!/bin/bash
 # dev helper: run every claimed check against every stored seed (scratch copy of /repo + patch) and print which checks fire.
-# usage: seedmatrix.sh [seed-dir ...]   (default: all of /verif/seeded)
+# usage: seedmatrix.sh [seed-dir ...]   (default: all of /verif/seeded). Evidence goes to a scratch dir, never to /verif/evidence.
 cd /verif
 seeds=${@:-$(ls seeded)}
-props=$(python3 -c "import json;print(' '.join(c['property_id'] for c in json.load(open('/verif/MANIFEST.json'))['checks']))")
 for s in $seeds; do
   s=$(basename $s)
   rm -rf /tmp/sm && mkdir -p /tmp/sm && cp -r /repo /tmp/sm/repo
   if ! git -C /tmp/sm/repo apply /verif/seeded/$s/patch.diff 2>/dev/null; then echo "$s PATCH-DOES-NOT-APPLY"; continue; fi
-  fired=""; rules=""
-  for p in $props; do
-    out=$(VSTATIC_REPO=/tmp/sm/repo VSTATIC_EVIDENCE_DIR=/tmp/sm/ev ./bin/vstatic check -property $p -tier quick 2>&1); rc=$?
-    if [ $rc -ne 0 ]; then fired="$fired $p"; rules="$rules $(echo "$out" | grep -oE '^(VIOLATED|UNDECIDED) rule=[A-Z-]+' | sed 's/.*rule=//' | sort -u | tr '\n' ',')"; fi
-  done
-  rules=$(echo $rules | tr ' ' '\n' | tr ',' '\n' | sort -u | grep . | tr '\n' ' ')
-  echo "$s fired:[${fired# }] rules:[${rules% }]"
+  out=$(VSTATIC_REPO=/tmp/sm/repo VSTATIC_EVIDENCE_DIR=/tmp/sm/ev ./bin/vstatic check-all 2>&1)
+  fired=$(echo "$out" | grep '^FIRED' | awk '{print $2}' | tr '\n' ' ')
+  rules=$(echo "$out" | grep -oE '(VIOLATED|UNDECIDED) rule=[A-Z-]+' | sed 's/.*rule=//' | sort -u | tr '\n' ' ')
+  keys=$(echo "$out" | grep -oE 'key=.*' | sort -u | head -4 | tr '\n' ';')
+  echo "$s fired:[${fired% }] rules:[${rules% }] $keys"
 done
 rm -rf /tmp/sm
